@@ -262,13 +262,305 @@ Definition ed_init {X} (frc fic : list Z) (p q : nat) (kids : list (list X)) : e
   mk_ed (ed_constant_cost frc fic) (zsum frc + zsum fic) rc ic kids 0
         (repeat (repeat start_cell (Datatypes.S (length rc))) (Datatypes.S (length ic))) None false.
 
+(* ---------------------------------------------------------------- EditCollection / FixedKeyDictNodeEdit  (edits.py:401-522)
+   explode_edits = False, collection = list.  State: the edits the iterator `_edit_iter` has not produced yet (creation
+   is pure, so they exist up front; None <-> _edit_iter is None: the iterator is dropped only by the next() call that
+   finds it exhausted), `_sub_edits` with each one's initial_bounds.upper_bound,
+   the memo `_cost`, `valid`.  bounds() has side effects (memo, valid), so it returns the new state as well. *)
+Record coll (X : Type) := mk_coll {
+  k_U : Z;                          (* _cost_upper_bound = from_node.total_size + 1 + to_node.total_size *)
+  k_pend : option (list X);         (* what _edit_iter still holds; None: _edit_iter is None *)
+  k_subs : list (X * Z);            (* _sub_edits, with e.initial_bounds.upper_bound *)
+  k_cost : option zr;               (* _cost *)
+  k_valid : bool                    (* valid *)
+}.
+Arguments mk_coll {X}. Arguments k_U {X}. Arguments k_pend {X}. Arguments k_subs {X}. Arguments k_cost {X}. Arguments k_valid {X}.
+
+Inductive for_res (X : Type) := ForExit (s : coll X) | ForDone (s : coll X) (tightened : bool).
+Arguments ForExit {X}. Arguments ForDone {X}.
+
+(* the value bounds() returns for an invalid edit is Range() = (-inf, +inf): not a finite range; the models answer
+   (0, 0) and keep valid = false (unreachable under the hypotheses of the contract lemma; a run of the implementation
+   that invalidates shows as a correspondence disagreement) *)
+Definition invalid_range : zr := (0, 0).
+
+Section Coll.
+  Context {X : Type}.
+  Variables (b : X -> zr) (t : X -> X * bool).
+
+  Definition set_subs (s : coll X) (l : list (X * Z)) : coll X := mk_coll (k_U s) (k_pend s) l (k_cost s) (k_valid s).
+  Definition set_memo (s : coll X) (c : option zr) : coll X := mk_coll (k_U s) (k_pend s) (k_subs s) c (k_valid s).
+  Definition set_invalid (s : coll X) : coll X := mk_coll (k_U s) (k_pend s) (k_subs s) (k_cost s) false.
+
+  (* total_cost before the comparison with super().bounds() *)
+  Definition coll_total (s : coll X) : zr :=
+    match k_pend s with
+    | None => zr_sum (map (fun p => b (fst p)) (k_subs s))
+    | Some _ => (zsum (map (fun p => fst (b (fst p))) (k_subs s)),
+            k_U s - zsum (map (fun p => snd p - snd (b (fst p))) (k_subs s)))
+    end.
+
+  (* bounds(): the state it leaves and the range it returns *)
+  Definition coll_bounds (s : coll X) : coll X * zr :=
+    if negb (k_valid s) then (s, invalid_range)
+    else match k_cost s with
+         | Some r => (s, r)
+         | None =>
+             let tot := coll_total s in
+             if k_U s <? fst tot then (set_invalid s, invalid_range)
+             else let r := (fst tot, Z.min (k_U s) (snd tot)) in
+                  match k_pend s with
+                  | None => if zdefb r then (set_memo s (Some r), r) else (s, r)
+                  | Some _ => (s, r)
+                  end
+         end.
+
+  (* _is_tightened(starting_bounds) *)
+  Definition coll_is_tightened (start : zr) (s : coll X) : coll X * bool :=
+    let q := coll_bounds s in (fst q, negb (k_valid (fst q)) || tighter (snd q) start).
+
+  (* _expand_edits() with explode_edits = False: the next edit, if any, is appended to _sub_edits and _cost is reset *)
+  Definition coll_expand (s : coll X) : coll X * bool :=
+    match k_pend s with
+    | None => (s, false)
+    | Some [] => (mk_coll (k_U s) None (k_subs s) (k_cost s) (k_valid s), false)          (* StopIteration *)
+    | Some (x :: rest) => (mk_coll (k_U s) (Some rest) (k_subs s ++ [(x, snd (b x))]) None (k_valid s), true)
+    end.
+
+  (* `for child in self._sub_edits: ...` ; pre = the children already visited (new states), post = those still to visit *)
+  Fixpoint coll_for (s : coll X) (start : zr) (pre post : list (X * Z)) (tg : bool) : for_res X :=
+    match post with
+    | [] => ForDone (set_subs s pre) tg
+    | (x, iu) :: rest =>
+        let p := t x in
+        if snd p then
+          let q := coll_bounds (set_memo (set_subs s (pre ++ (fst p, iu) :: rest)) None) in
+          if tighter (snd q) start then ForExit (fst q)
+          else coll_for (fst q) start (pre ++ [(fst p, iu)]) rest true
+        else coll_for s start (pre ++ [(fst p, iu)]) rest tg
+    end.
+
+  (* the `while True` loop of tighten_bounds(); every round without a return consumes one edit of the iterator or
+     finds the iterator exhausted *)
+  Fixpoint coll_loop (fuel : nat) (start : zr) (s : coll X) : coll X * bool :=
+    match fuel with
+    | O => (set_invalid s, false)
+    | Datatypes.S f =>
+        let e := coll_expand s in
+        let q := coll_is_tightened start (fst e) in
+        if snd e && snd q then (fst q, true)
+        else
+          let s2 := if snd e then fst q else fst e in
+          match coll_for s2 start [] (k_subs s2) false with
+          | ForExit s3 => (s3, true)
+          | ForDone s3 tg =>
+              match k_pend s3 with
+              | None => if tg then coll_loop f start s3 else coll_is_tightened start s3
+              | Some _ => coll_loop f start s3
+              end
+          end
+    end.
+
+  Definition coll_tig (s : coll X) : coll X * bool :=
+    if negb (k_valid s) then (s, false)
+    else let q := coll_bounds s in
+         let r := coll_loop (Datatypes.S (Datatypes.S (length (match k_pend s with Some l => l | None => [] end)))) (snd q) (fst q) in
+         (fst (coll_bounds (fst r)), snd r).           (* the observer's bounds() after the call *)
+
+  Definition coll_bnd (s : coll X) : zr := snd (coll_bounds s).
+
+  (* __init__: initial_bounds = self.bounds() *)
+  Definition coll_init (U : Z) (kids : list X) : coll X := fst (coll_bounds (mk_coll U (Some kids) [] None true)).
+End Coll.
+
+Definition collM (C : machine) : machine :=
+  {| St := coll (St C); bnd := coll_bnd (bnd C); tig := coll_tig (bnd C) (tig C) |}.
+
+(* ---------------------------------------------------------------- WeightedBipartiteMatcher + MultiSetEdit
+   (matching.py:566-710, multiset.py).  One state for the edit and the matcher it owns.
+   Oracles (answers of code that is not modelled; every answer is accepted, so the theorems quantify over all of them):
+     m_counts  how many tighten_bounds() calls bounds.make_distinct made on each edge (it iterates a set of intervals
+               whose order depends on object addresses); make_distinct is thereby the abstract step "each edge is
+               tightened some number of times" (its own contract is C17's);
+     m_asg     the assignment scipy's linear_sum_assignment returned (rows ascending); used only if it is a full
+               matching (valid_asg), otherwise the diagonal.
+   Domain: the elements on each side are pairwise different (the matcher's dictionaries are keyed by node: D36). *)
+Record mset (X : Type) := mk_mset {
+  m_kvp : list X;                     (* _matched_kvp_edits *)
+  m_edges : list (list X);            (* matcher.edges[i][j] = from_nodes[i].edits(to_nodes[j]); creation is pure *)
+  m_rem : list Z;                     (* cost of Remove(from_nodes[i]) *)
+  m_ins : list Z;                     (* cost of Insert(to_nodes[j]) *)
+  m_distinct : bool;                  (* _edges_are_distinct *)
+  m_match : option (list (nat * nat));(* _match, in dictionary order (= rows ascending) *)
+  m_memo : option zr;                 (* matcher._bounds *)
+  m_counts : list (list nat);         (* oracle *)
+  m_asg : list (nat * nat)            (* oracle *)
+}.
+Arguments mk_mset {X}. Arguments m_kvp {X}. Arguments m_edges {X}. Arguments m_rem {X}. Arguments m_ins {X}.
+Arguments m_distinct {X}. Arguments m_match {X}. Arguments m_memo {X}. Arguments m_counts {X}. Arguments m_asg {X}.
+
+Definition zmax_list (l : list Z) : Z := match l with [] => 0 | x :: l' => fold_right Z.max x l' end.
+(* the sum of the k largest = minus the sum of the k smallest of the negated list *)
+Definition sum_largest (k : nat) (l : list Z) : Z := - sum_smallest k (map Z.opp l).
+
+Fixpoint rows_incr (lo : nat) (l : list (nat * nat)) : bool :=
+  match l with [] => true | p :: l' => Nat.leb lo (fst p) && rows_incr (Datatypes.S (fst p)) l' end.
+Fixpoint nodup_nat (l : list nat) : bool :=
+  match l with [] => true | x :: l' => negb (existsb (Nat.eqb x) l') && nodup_nat l' end.
+(* a full matching of an n x m complete bipartite graph: min(n, m) pairs, rows strictly ascending, columns distinct *)
+Definition valid_asg (n m : nat) (a : list (nat * nat)) : bool :=
+  Nat.eqb (length a) (Nat.min n m) && rows_incr 0 a && forallb (fun p => Nat.ltb (fst p) n && Nat.ltb (snd p) m) a &&
+  nodup_nat (map snd a).
+Definition diag_asg (k : nat) : list (nat * nat) := map (fun i => (i, i)) (seq 0 k).
+
+Section MSet.
+  Context {X : Type}.
+  Variables (b : X -> zr) (t : X -> X * bool).
+
+  Definition mn (s : mset X) : nat := length (m_rem s).
+  Definition mm (s : mset X) : nat := length (m_ins s).
+  Definition m_empty (s : mset X) : bool := Nat.eqb (mn s) 0 || Nat.eqb (mm s) 0.
+
+  Definition with_kvp (s : mset X) (l : list X) : mset X :=
+    mk_mset l (m_edges s) (m_rem s) (m_ins s) (m_distinct s) (m_match s) (m_memo s) (m_counts s) (m_asg s).
+  Definition with_edges (s : mset X) (e : list (list X)) : mset X :=
+    mk_mset (m_kvp s) e (m_rem s) (m_ins s) (m_distinct s) (m_match s) (m_memo s) (m_counts s) (m_asg s).
+  Definition with_distinct (s : mset X) : mset X :=
+    mk_mset (m_kvp s) (m_edges s) (m_rem s) (m_ins s) true (m_match s) (m_memo s) (m_counts s) (m_asg s).
+  Definition with_match (s : mset X) (mt : list (nat * nat)) : mset X :=
+    mk_mset (m_kvp s) (m_edges s) (m_rem s) (m_ins s) (m_distinct s) (Some mt) (m_memo s) (m_counts s) (m_asg s).
+  Definition with_memo (s : mset X) (r : zr) : mset X :=
+    mk_mset (m_kvp s) (m_edges s) (m_rem s) (m_ins s) (m_distinct s) (m_match s) (Some r) (m_counts s) (m_asg s).
+
+  (* the matrix of the edges' bounds, and the entry of a pair *)
+  Definition bmat (e : list (list X)) : list (list zr) := map (map b) e.
+  Definition ebnd (B : list (list zr)) (ij : nat * nat) : zr :=
+    match mget B (fst ij) (snd ij) with Some r => r | None => (0, 0) end.
+
+  (* the matching the solver's answer stands for *)
+  Definition chosen (s : mset X) : list (nat * nat) :=
+    if m_empty s then []
+    else if valid_asg (mn s) (mm s) (m_asg s) then m_asg s else diag_asg (Nat.min (mn s) (mm s)).
+
+  (* WeightedBipartiteMatcher.bounds() without the memo *)
+  Definition mt_compute (s : mset X) : zr :=
+    if m_empty s then (0, 0)
+    else match m_match s with
+         | None =>
+             let k := Nat.min (mn s) (mm s) in
+             (sum_smallest k (map (fun row => zmin_list (map fst row)) (bmat (m_edges s))),
+              sum_largest k (map (fun row => zmax_list (map snd row)) (bmat (m_edges s))))
+         | Some mt => zr_sum (map (ebnd (bmat (m_edges s))) mt)
+         end.
+  Definition mt_bounds (s : mset X) : mset X * zr :=
+    match m_memo s with
+    | Some r => (s, r)
+    | None => let r := mt_compute s in if zdefb r then (with_memo s r, r) else (s, r)
+    end.
+
+  Fixpoint iter_tig (n : nat) (x : X) : X := match n with O => x | Datatypes.S n' => iter_tig n' (fst (t x)) end.
+  (* make_distinct over all edges: every edge is tightened some number of times *)
+  Definition md_edges (cnt : list (list nat)) (e : list (list X)) : list (list X) :=
+    map (fun ir => map (fun jx => iter_tig (nth (fst jx) (nth (fst ir) cnt []) O) (snd jx))
+                       (combine (seq 0 (length (snd ir))) (snd ir)))
+        (combine (seq 0 (length e)) e).
+
+  (* the `matching` property: computes the matching if it is not known yet *)
+  Definition mt_force (s : mset X) : mset X :=
+    match m_match s with
+    | Some _ => s
+    | None =>
+        if m_empty s then with_match s []
+        else let s1 := if m_distinct s then s else with_distinct (with_edges s (md_edges (m_counts s) (m_edges s))) in
+             with_match s1 (chosen s1)
+    end.
+
+  (* `for (_, (_, edge)) in self.matching.items(): if edge.tighten_bounds(): return True` *)
+  Fixpoint mt_matched (e : list (list X)) (mt : list (nat * nat)) : list (list X) * bool :=
+    match mt with
+    | [] => (e, false)
+    | ij :: rest =>
+        match mget e (fst ij) (snd ij) with
+        | None => mt_matched e rest
+        | Some x => let p := t x in
+                    let e' := set2 e (fst ij) (snd ij) (fst p) in
+                    if snd p then (e', true) else mt_matched e' rest
+        end
+    end.
+
+  (* the undecorated tighten_bounds() of the matcher *)
+  Definition mt_func (s : mset X) : mset X :=
+    match m_match s with
+    | None => if m_distinct s then mt_force s
+              else with_distinct (with_edges s (md_edges (m_counts s) (m_edges s)))
+    | Some mt => with_edges s (fst (mt_matched (m_edges s) mt))
+    end.
+
+  (* @repeat_until_tightened; the state a call starts from is the one bounds() left behind *)
+  Definition mt_tig (s : mset X) : mset X * bool :=
+    rut (fun s => snd (mt_bounds s)) (fun s => fst (mt_bounds (mt_func s))) 4 s.
+
+  Definition zconst (c : Z) : zr := (c, c).
+  Definition unmatched_cost (s : mset X) (mt : list (nat * nat)) : Z :=
+    zsum (map (fun i => nth i (m_rem s) 0) (filter (fun i => negb (existsb (Nat.eqb i) (map fst mt))) (seq 0 (mn s)))) +
+    zsum (map (fun j => nth j (m_ins s) 0) (filter (fun j => negb (existsb (Nat.eqb j) (map snd mt))) (seq 0 (mm s)))).
+
+  (* MultiSetEdit.bounds() *)
+  Definition ms_bounds (s : mset X) : mset X * zr :=
+    let q := mt_bounds s in
+    let base := zr_add (snd q) (zr_sum (map b (m_kvp s))) in
+    (fst q,
+     match m_match s with
+     | Some mt => zr_add base (zconst (unmatched_cost s mt))
+     | None =>
+         if Nat.ltb (mm s) (mn s)
+         then zr_add base (sum_smallest (mn s - mm s) (m_rem s), sum_largest (mn s - mm s) (m_rem s))
+         else if Nat.ltb (mn s) (mm s)
+         then zr_add base (sum_smallest (mm s - mn s) (m_ins s), sum_largest (mm s - mn s) (m_ins s))
+         else base
+     end).
+
+  (* MultiSetEdit.tighten_bounds() *)
+  Definition ms_tig (s : mset X) : mset X * bool :=
+    let p := first_true t (m_kvp s) in
+    let s1 := with_kvp s (fst p) in
+    if snd p then (s1, true)
+    else let r := mt_tig s1 in
+         if snd r then (fst r, true)
+         else match m_match (fst r) with
+              | Some _ => (fst r, false)
+              | None => let q0 := ms_bounds (fst r) in
+                        let q1 := ms_bounds (mt_force (fst q0)) in
+                        (fst q1, tighter (snd q1) (snd q0))
+              end.
+
+  Definition ms_bnd (s : mset X) : zr := snd (ms_bounds s).
+  Definition ms_step (s : mset X) : mset X * bool := let r := ms_tig s in (fst (ms_bounds (fst r)), snd r).
+  Definition mt_bnd (s : mset X) : zr := snd (mt_bounds s).
+  Definition mt_step (s : mset X) : mset X * bool := let r := mt_tig s in (fst (mt_bounds (fst r)), snd r).
+
+  (* __init__ (initial_bounds = self.bounds()) *)
+  Definition mset_init (kvp : list X) (edges : list (list X)) (rem ins : list Z) (cnt : list (list nat)) (asg : list (nat * nat))
+    : mset X := fst (ms_bounds (mk_mset kvp edges rem ins false None None cnt asg)).
+End MSet.
+
+Definition msetM (C : machine) : machine :=
+  {| St := mset (St C); bnd := ms_bnd (bnd C); tig := ms_step (bnd C) (tig C) |}.
+(* the matcher alone (what an observer of the WeightedBipartiteMatcher object sees) *)
+Definition matcherM (C : machine) : machine :=
+  {| St := mset (St C); bnd := mt_bnd (bnd C); tig := mt_step (bnd C) (tig C) |}.
+(* matching.Edge: pure delegation to its weight *)
+Definition edgeM (C : machine) : machine := {| St := St C; bnd := bnd C; tig := tig C |}.
+
 (* ---------------------------------------------------------------- the universal machine
    one state type for all classes; tigU d steps states of nesting depth <= d *)
 Inductive st :=
   | SConst (c : Z)                              (* ConstantCostEdit *)
   | SSum (l : list st)                          (* KeyValuePairEdit: [key_edit; value_edit] *)
   | SFixed (l : list st) (extra : Z)            (* FixedLengthSequenceEdit *)
-  | SED (e : ed st).                            (* EditDistance; StringEdit (pure delegation to an EditDistance) *)
+  | SED (e : ed st)                             (* EditDistance; StringEdit (pure delegation to an EditDistance) *)
+  | SColl (c : coll st)                         (* FixedKeyDictNodeEdit (an EditCollection over a list) *)
+  | SMSet (m : mset st).                        (* MultiSetEdit with its WeightedBipartiteMatcher *)
 
 Fixpoint bndU (s : st) : zr :=
   match s with
@@ -276,6 +568,8 @@ Fixpoint bndU (s : st) : zr :=
   | SSum l => zr_sum (map bndU l)
   | SFixed l x => let r := zr_sum (map bndU l) in (fst r + x, snd r + x)
   | SED e => ed_bnd e
+  | SColl c => coll_bnd bndU c
+  | SMSet m => ms_bnd bndU m
   end.
 
 Fixpoint tigU (d : nat) (s : st) : st * bool :=
@@ -287,6 +581,8 @@ Fixpoint tigU (d : nat) (s : st) : st * bool :=
       | SSum l => let p := first_true (tigU d') l in (SSum (fst p), snd p)
       | SFixed l x => let p := fixed_tig bndU (tigU d') (l, x) in (SFixed (fst (fst p)) (snd (fst p)), snd p)
       | SED e => let p := ed_tig bndU (tigU d') e in (SED (fst p), snd p)
+      | SColl c => let p := coll_tig bndU (tigU d') c in (SColl (fst p), snd p)
+      | SMSet m => let p := ms_step bndU (tigU d') m in (SMSet (fst p), snd p)
       end
   end.
 
@@ -299,6 +595,9 @@ Fixpoint sheight (s : st) : nat :=
   | SSum l => S (nat_max_list (map sheight l))
   | SFixed l _ => S (nat_max_list (map sheight l))
   | SED e => S (nat_max_list (map (fun row => nat_max_list (map sheight row)) (e_kids e)))
+  | SColl c => S (Nat.max (match k_pend c with Some l => nat_max_list (map sheight l) | None => O end) (nat_max_list (map (fun p => sheight (fst p)) (k_subs c))))
+  | SMSet m => S (Nat.max (nat_max_list (map sheight (m_kvp m)))
+                          (nat_max_list (map (fun row => nat_max_list (map sheight row)) (m_edges m))))
   end.
 
 (* ---------------------------------------------------------------- a.edits(b) for the modelled fragment *)
@@ -334,7 +633,20 @@ Definition const_of (a b : tree) : option Z :=
                    | Kvp _ k' _ => if ake || node_eqb k k' then None else Some (replace_cost a b)
                    | _ => None
                    end
-  | _ => None
+  | MSet _ cs => match b with
+                 | MSet _ ds => if (match cs, ds with [], [] => true | _, _ => false end) || node_eqb a b then Some 0 else None
+                 | FDict _ => None                       (* mixed mapping classes: no dictionary strategy produces them *)
+                 | _ => Some (replace_cost a b)
+                 end
+  | FDict cs => match b with
+                | FDict ds =>
+                    if (match cs, ds with [], [] => true | _, _ => false end) ||
+                       (forallb (fun c => existsb (fun d => node_eqb c d) ds) cs &&
+                        forallb (fun d => existsb (fun c => node_eqb c d) cs) ds)
+                    then Some 0 else None
+                | MSet _ _ => None                      (* mixed mapping classes: no dictionary strategy produces them *)
+                | _ => Some (replace_cost a b)
+                end
   end.
 
 Fixpoint all_some_l {A} (l : list (option A)) : option (list A) :=
@@ -352,7 +664,42 @@ Definition str_state (s t : str) : st :=
   SED (ed_init (map (fun _ => 1) s) (map (fun _ => 1) t) p q
                (map (fun d => map (fun c => SConst (char_cost c d)) s') t')).
 
-Fixpoint initU (a b : tree) {struct a} : option st :=
+(* structural identity of trees: the key under which the harness files the oracle answers of a matcher *)
+Definition leaf_beq (x y : leaf) : bool :=
+  lkind_eqb (lk x) (lk y) && str_eqb (ltext x) (ltext y) && (lnum x =? lnum y) && (lexp x =? lexp y).
+Fixpoint tree_beq (a b : tree) {struct a} : bool :=
+  match a, b with
+  | Leaf x, Leaf y => leaf_beq x y
+  | Lst e1 s1 xs, Lst e2 s2 ys =>
+      Bool.eqb e1 e2 && Bool.eqb s1 s2 &&
+      (fix go (xs ys : list tree) {struct xs} : bool :=
+         match xs, ys with [], [] => true | x :: xs', y :: ys' => tree_beq x y && go xs' ys' | _, _ => false end) xs ys
+  | Kvp e k v, Kvp e' k' v' => Bool.eqb e e' && tree_beq k k' && tree_beq v v'
+  | MSet e xs, MSet e' ys =>
+      Bool.eqb e e' &&
+      (fix go (xs ys : list tree) {struct xs} : bool :=
+         match xs, ys with [], [] => true | x :: xs', y :: ys' => tree_beq x y && go xs' ys' | _, _ => false end) xs ys
+  | FDict xs, FDict ys =>
+      (fix go (xs ys : list tree) {struct xs} : bool :=
+         match xs, ys with [], [] => true | x :: xs', y :: ys' => tree_beq x y && go xs' ys' | _, _ => false end) xs ys
+  | _, _ => false
+  end.
+Fixpoint trees_beq (xs ys : list tree) : bool :=
+  match xs, ys with [], [] => true | x :: xs', y :: ys' => tree_beq x y && trees_beq xs' ys' | _, _ => false end.
+
+(* the oracle: for the matcher between the node lists (from_nodes, to_nodes): make_distinct's call counts per edge and
+   the solver's assignment *)
+Definition oracle := list ((list tree * list tree) * (list (list nat) * list (nat * nat))).
+Definition orc_lookup (orc : oracle) (fs ts : list tree) : list (list nat) * list (nat * nat) :=
+  match find (fun e => trees_beq (fst (fst e)) fs && trees_beq (snd (fst e)) ts) orc with
+  | Some e => snd e
+  | None => ([], [])
+  end.
+
+Fixpoint distinct_nodes (cs : list tree) : bool :=
+  match cs with [] => true | c :: cs' => negb (existsb (node_eqb c) cs') && distinct_nodes cs' end.
+
+Fixpoint initO (orc : oracle) (a b : tree) {struct a} : option st :=
   match const_of a b with
   | Some c => Some (SConst c)
   | None =>
@@ -367,7 +714,7 @@ Fixpoint initU (a b : tree) {struct a} : option st :=
           end
       | Lst ale alsl cs =>
           let ds := match b with Lst _ _ ds => ds | _ => [] end in
-          let M := map (fun c => map (fun d => initU c d) ds) cs in            (* M[i][j] = cs[i].edits(ds[j]) *)
+          let M := map (fun c => map (fun d => initO orc c d) ds) cs in            (* M[i][j] = cs[i].edits(ds[j]) *)
           match list_dispatch a b with
           | LFixed =>
               let n := length cs in
@@ -402,17 +749,73 @@ Fixpoint initU (a b : tree) {struct a} : option st :=
       | Kvp ake k v =>
           match b with
           | Kvp _ k' v' =>
-              let ke := if node_eqb k k' then Some (SConst 0) else initU k k' in
-              let ve := if node_eqb v v' then Some (SConst 0) else initU v v' in
+              let ke := if node_eqb k k' then Some (SConst 0) else initO orc k k' in
+              let ve := if node_eqb v v' then Some (SConst 0) else initO orc v v' in
               match ke, ve with
               | Some x, Some y => Some (SSum [x; y])
               | _, _ => None
               end
           | _ => None
           end
-      | _ => None
+      | FDict cs =>
+          (* FixedKeyDictNode._child_edits: the pairs sharing a key in the order of self, then the removals, then the
+             insertions in the order of the other mapping; cost_upper_bound = total sizes + 1.  Domain: members are
+             key/value pairs, and the children's initial upper bounds fit the budget (then the edit never invalidates
+             itself; proved to hold whenever no child is a multiset edit: not proved here: the guard is a computed hypothesis) *)
+          match b with
+          | FDict ds =>
+              let M := map (fun c => map (fun d => initO orc c d) ds) cs in
+              let partner := fun c => find_index (fun d => node_eqb (kvp_key c) (kvp_key d)) ds 0 in
+              let shared := flat_map (fun i => match partner (nth i cs dummy) with Some j => [(i, j)] | None => [] end)
+                                     (seq 0 (length cs)) in
+              let unshared := filter (fun i => match partner (nth i cs dummy) with Some _ => false | None => true end)
+                                     (seq 0 (length cs)) in
+              let inserted := filter (fun j => negb (existsb (fun c => node_eqb (kvp_key c) (kvp_key (nth j ds dummy))) cs))
+                                     (seq 0 (length ds)) in
+              let get := fun (ij : nat * nat) =>
+                  if node_eqb (nth (fst ij) cs dummy) (nth (snd ij) ds dummy) then Some (SConst 0)
+                  else match mget M (fst ij) (snd ij) with Some (Some s) => Some s | _ => None end in
+              if fixed_dict_removals_in_hash_order || negb (forallb is_kvp cs && forallb is_kvp ds) then None
+              else
+                match all_some_l (map get shared) with
+                | Some sh =>
+                    let kids := sh ++ map (fun i => SConst (remove_cost (nth i cs dummy) 1)) unshared
+                                   ++ map (fun j => SConst (insert_cost (nth j ds dummy) 1)) inserted in
+                    let U := size a + 1 + size b in
+                    if zsum (map (fun s => snd (bndU s)) kids) <=? U then Some (SColl (coll_init bndU U kids)) else None
+                | None => None
+                end
+          | _ => None
+          end
+      | MSet amk cs =>
+          (* MultiSetEdit.__init__: key pre-matching (auto_match_keys), exact matches, then the matcher between what is
+             left (to_remove x to_insert).  Domain: the elements of each side are pairwise different (D36) *)
+          match b with
+          | MSet _ ds =>
+              let M := map (fun c => map (fun d => initO orc c d) ds) cs in
+              let pre := if amk then prematch cs 0 ds [] else [] in
+              let fl := filter (fun i => negb (nat_in i (map fst pre))) (seq 0 (length cs)) in
+              let tl := filter (fun j => negb (nat_in j (map snd pre))) (seq 0 (length ds)) in
+              let eq_ij := fun i j => node_eqb (nth i cs dummy) (nth j ds dummy) in
+              let R := filter (fun i => negb (existsb (fun j => eq_ij i j) tl)) fl in              (* to_remove *)
+              let I := filter (fun j => negb (existsb (fun i => eq_ij i j) fl)) tl in              (* to_insert *)
+              let get := fun i j => match mget M i j with Some (Some s) => Some s | _ => None end in
+              if negb (distinct_nodes cs && distinct_nodes ds) then None
+              else
+                match all_some_l (map (fun ij => get (fst ij) (snd ij)) pre),
+                      all_some_l (map (fun i => all_some_l (map (fun j => get i j) I)) R) with
+                | Some kv, Some edges =>
+                    let ans := orc_lookup orc (map (fun i => nth i cs dummy) R) (map (fun j => nth j ds dummy) I) in
+                    Some (SMSet (mset_init bndU kv edges (map (fun i => remove_cost (nth i cs dummy) 1) R)
+                                           (map (fun j => insert_cost (nth j ds dummy) 1) I) (fst ans) (snd ans)))
+                | _, _ => None
+                end
+          | _ => None
+          end
       end
   end.
+
+Definition initU (a b : tree) : option st := initO [] a b.
 
 (* ---------------------------------------------------------------- correspondence *)
 Definition ev_eqb (x y : ev) : bool :=
@@ -448,10 +851,10 @@ Fixpoint dedup_B (prev : option rng) (evs : list ev) : list ev :=
   | ET r :: evs' => ET r :: dedup_B None evs'
   end.
 
-Record ccase := { cc_case : case; cc_root : bool }.
+Record ccase := { cc_case : case; cc_root : bool; cc_orc : oracle }.
 
-Definition model_trace (a b : tree) : option (list ev) :=
-  match initU a b with
+Definition model_trace (orc : oracle) (a b : tree) : option (list ev) :=
+  match initO orc a b with
   | Some s =>     (* AbstractEdit.__init__ queries bounds() once (initial_bounds), then the observer drives *)
       Some (EB (rng_of (bndU s)) :: trace_of (UM (sheight s)) (S (S (Z.to_nat (width (bndU s))))) s)
   | None => None
@@ -459,11 +862,11 @@ Definition model_trace (a b : tree) : option (list ev) :=
 
 (* is the pair inside the modelled fragment (and the first object the actively driven root edit)? *)
 Definition modelled_C04 (c : ccase) : bool :=
-  cc_root c && match initU (c_a (cc_case c)) (c_b (cc_case c)) with Some _ => true | None => false end.
+  cc_root c && match initO (cc_orc c) (c_a (cc_case c)) (c_b (cc_case c)) with Some _ => true | None => false end.
 
 Definition corr_C04 (c : ccase) : bool :=
   if cc_root c then
-    match model_trace (c_a (cc_case c)) (c_b (cc_case c)), c_objs (cc_case c) with
+    match model_trace (cc_orc c) (c_a (cc_case c)) (c_b (cc_case c)), c_objs (cc_case c) with
     | Some tr, o :: _ => evs_eqb (dedup_B None tr) (upto_false (ot_events o))
     | Some _, [] => false
     | None, _ => true
